@@ -1,2 +1,85 @@
-From TV Require Import Base.
-Example C06_placeholder : True. Proof. exact I. Qed.
+(* C06 -- callbacks are honoured exactly, merged when simultaneous, never invented.
+   Scheduler bookkeeping at message level (Model/Master.v, the same wakeups logic is used by
+   the nested scheduler, whose `when <= time` rule is modelled in Model/Sim.v).
+   Property theorems only. *)
+From TV Require Import Base Model.Wiring Model.Ticker Model.Master Proofs.MasterP.
+Open Scope Z_scope.
+
+(* get_first_wakeups: the time chosen is the earliest pending one, and the components chosen are
+   exactly those pending for that time *)
+Theorem C06_first_wakeups : forall w when roots,
+  first_wakeups w = Some (when, roots) ->
+  (forall c x, In (c, x) w -> when <= x) /\ (exists c, In (c, when) w) /\
+  (forall c, In c roots <-> In (c, when) w).
+Proof. exact first_wakeups_spec. Qed.
+
+(* the tick the timer starts: its time is the earliest pending callback time (so no tick with a
+   later time starts while a component is pending: honoured at exactly t); all components pending
+   for that time are its roots (merged); exactly their entries are consumed (served once); and it
+   is not early in real time *)
+Theorem C06_honoured_merged_once : forall conns comps initial num den,
+  0 < num -> 0 < den ->
+  forall m now r m' o when roots,
+    MInv initial num den m now -> now <= r -> env_ok m r ITimer ->
+    step conns comps initial num den m r ITimer = (m', o) -> In (OTickStart when roots) o ->
+    (forall c x, In (c, x) (mw m) -> when <= x) /\
+    (forall c, In c roots <-> In (c, when) (mw m)) /\
+    (forall c x, In (c, x) (mw m') <-> In (c, x) (mw m) /\ ~ In c roots).
+Proof.
+  intros conns comps initial num den Hn Hd m now r m' o when roots HI Hr He Hs Hin.
+  apply (timer_tick_spec conns comps initial num den Hn m now r m' o when roots HI Hr He Hs Hin).
+Qed.
+
+(* never invented: a tick is started either by IStart (the initial time) or by the timer for a
+   time that is a pending wakeup -- and a wakeup only ever is a call_at of an answer or the stamp
+   of an interrupt ([on_answer], [interrupt_wake]) *)
+Theorem C06_not_invented : forall conns comps initial num den,
+  0 < num -> 0 < den ->
+  forall m now r i m' o when roots,
+    MInv initial num den m now -> step conns comps initial num den m r i = (m', o) ->
+    In (OTickStart when roots) o ->
+    (i = IStart /\ when = initial) \/ (i = ITimer /\ exists c, In (c, when) (mw m)).
+Proof.
+  intros conns comps initial num den Hn Hd m now r i m' o when roots HI Hs Hin.
+  destruct HI as [Ireal Iwake Itick Isleep Iinit].
+  assert (Hplan : forall mm rr m2 o2, plan num den mm rr = (m2, o2) -> ~ In (OTickStart when roots) o2).
+  { intros mm rr m2 o2 H. unfold plan in H. destruct (first_wakeups (mw mm)) as [[? ?]|]; inversion H; subst; simpl; intuition discriminate. }
+  assert (Hans : forall c t ch ca, on_answer conns comps num den m r c t ch ca = (m', o) -> False).
+  { intros c t ch ca H. unfold on_answer in H. destruct (mp m); try (inversion H; subst; destruct Hin as [X|[]]; discriminate).
+    destruct (propagate conns comps st c t ch) as [|st' acts fin]; [inversion H; subst; destruct Hin as [X|[]]; discriminate|].
+    destruct fin.
+    - destruct (m_err m).
+      + inversion H; subst. apply in_app_iff in Hin. destruct Hin as [X|[X|[]]]; [apply in_map_iff in X; destruct X as [a [Y _]]|]; discriminate.
+      + destruct (plan num den _ r) as [m2 po] eqn:Epl. inversion H; subst.
+        apply in_app_iff in Hin. destruct Hin as [X|[X|X]]; [apply in_map_iff in X; destruct X as [a [Y _]]; discriminate | discriminate |].
+        eapply Hplan; eassumption.
+    - inversion H; subst. apply in_map_iff in Hin. destruct Hin as [a [Y _]]. discriminate. }
+  destruct i as [|c t ch ca|c t|c|c|]; simpl in Hs.
+  - left. split; [reflexivity|]. destruct (mp m); try (inversion Hs; subst; destruct Hin as [X|[]]; discriminate).
+    destruct (begin_tick_spec conns comps _ initial comps (mw m) m' o Hs) as [[_ ->]|[st1 [acts [_ [_ [_ [_ [_ [Ho _]]]]]]]]].
+    + destruct Hin as [X|[]]. discriminate.
+    + rewrite Ho in Hin. destruct Hin as [X|X]; [inversion X; reflexivity | apply in_map_iff in X; destruct X as [a [Y _]]; discriminate].
+  - exfalso. eapply Hans. exact Hs.
+  - exfalso. eapply Hans. exact Hs.
+  - exfalso. destruct (mp m); try (inversion Hs; subst; destruct Hin as [X|[]]; discriminate); try (inversion Hs; subst; destruct Hin).
+    + eapply Hplan; eassumption.
+    + eapply Hplan; eassumption.
+  - exfalso. destruct (mp m); inversion Hs; subst; try (destruct Hin as [X|[]]; discriminate);
+      apply in_map_iff in Hin; destruct Hin as [a [Y _]]; discriminate.
+  - right. split; [reflexivity|]. destruct (mp m) as [|st when0| |when1 roots1 d|] eqn:Ep; try (inversion Hs; subst; destruct Hin).
+    destruct (Isleep when1 roots1 d eq_refl) as [Hfw _].
+    destruct (begin_tick_spec conns comps m when1 roots1 _ m' o Hs) as [[_ ->]|[st1 [acts [_ [_ [_ [_ [_ [Ho _]]]]]]]]].
+    + destruct Hin as [X|[]]. discriminate.
+    + rewrite Ho in Hin. destruct Hin as [X|X]; [|apply in_map_iff in X; destruct X as [a [Y _]]; discriminate].
+      injection X as E1 E2. subst. destruct (first_wakeups_spec _ _ _ Hfw) as [_ [Hex _]]. exact Hex.
+Qed.
+
+(* a pending entry is only changed by the component's own later answer (re-plan) or interrupt:
+   stated for answers of OTHER components *)
+Theorem C06_pending_kept : forall (w : list (comp * Z)) c c' x,
+  c' <> c -> lookup c' (upd c x w) = lookup c' w.
+Proof. intros w c c' x H. apply lookup_upd_other. exact H. Qed.
+
+Example C06_nonvacuous :
+  first_wakeups [(3%positive, 700); (4%positive, 300); (5%positive, 300)] = Some (300, [4%positive; 5%positive]).
+Proof. vm_compute. reflexivity. Qed.
